@@ -61,7 +61,7 @@ def shard(col, shard_i, ngrammars, ninputs, full):
             lrec = False
         elif lrec:
             g, kind = G.lrec_grammar(rng)
-            texts = G.lrec_inputs(rng, ninputs)
+            texts = G.lrec_inputs(rng, ninputs, g=g)
             col.count('grammar.lrec.' + kind)
         else:
             g = G.gen_grammar(rng, G.GenCfg(cuts=0.08), depth=rng.choice([2, 3, 3]))
